@@ -123,6 +123,10 @@ func dereferenceJSONPointer(s *Schema, sptr string) (_ *Schema, err error) {
 		}
 	}
 	if s, ok := v.Interface().(*Schema); ok {
+		if s == nil {
+			// An absent schema-valued keyword is not a schema location.
+			return nil, errors.New("navigated to nil reference")
+		}
 		return s, nil
 	}
 	return nil, fmt.Errorf("does not refer to a schema, but to a %s", v.Type())
